@@ -226,7 +226,11 @@ func (p *Parser) attributes() []Attribute {
 					break
 				}
 			}
-			p.expect(TokenRightParen)
+			if err := p.expectErr(TokenRightParen); err != nil {
+				// attributes() has no error result: record the error so that
+				// Parse fails, and carry on with the declaration.
+				p.errors = append(p.errors, *err)
+			}
 		}
 
 		attrs = append(attrs, attr)
@@ -1673,7 +1677,9 @@ func (p *Parser) postfix() (Expr, *ParseError) {
 					break
 				}
 			}
-			p.expect(TokenRightParen)
+			if err := p.expectErr(TokenRightParen); err != nil {
+				return nil, err
+			}
 
 			if ident, ok := expr.(*Ident); ok {
 				expr = &CallExpr{
@@ -1692,7 +1698,9 @@ func (p *Parser) postfix() (Expr, *ParseError) {
 			if err != nil {
 				return nil, err
 			}
-			p.expect(TokenRightBracket)
+			if err := p.expectErr(TokenRightBracket); err != nil {
+				return nil, err
+			}
 			expr = &IndexExpr{
 				Expr:  expr,
 				Index: index,
